@@ -178,7 +178,14 @@ theorem asciiEnc_of_variant (v : Gen.Variant)
   case replacement => exact absurd h (by decide)
   case utf16Be => exact absurd h (by decide)
   case utf16Le => exact absurd h (by decide)
-  all_goals (apply stateless_asciiEnc; decide +kernel)
+  case utf8 =>
+    intro c hc
+    show (statelessStep utf8EncodeChar () c).st = () ∧ (statelessStep utf8EncodeChar () c).out = [c] ∧
+      (statelessStep utf8EncodeChar () c).unmappable = none ∧ (statelessStep utf8EncodeChar () c).unread = false
+    have : utf8EncodeChar c = some [c] := by
+      revert c; decide +kernel
+    unfold statelessStep; rw [this]; exact ⟨rfl, rfl, rfl, rfl⟩
+  all_goals (refine stateless_asciiEnc _ _ ?_; decide +kernel)
 
 /-- **`is_ascii_compatible()` ⇒**: U+0000–U+007F encode back to the same single bytes -/
 theorem ascii_compatible_encodes (i : Nat) (hi : i < 40) (h : isAsciiCompatible i = true) :
